@@ -468,14 +468,23 @@ def main():
                 if not (ulevel & PERM_BOARD) or (a & BRD_HIDE):
                     a &= ~BRD_POSTMASK; lvl = 0
                 title = pad(r.klass, 4) + b" " + (GRP if r.group else BRD) + pad(r.title, 42)
-                want_bm = b"/".join(cstr(pad(x, 13)) for x in r.bms if user_exists(x) and b"/" not in cstr(pad(x, 13)))
+                # requested moderators that exist, as many as fit into the 39-byte field with their separators
+                req_ids, room = [], 39
+                for x in r.bms:
+                    x = cstr(pad(x, 13))
+                    need = len(x) + (1 if req_ids else 0)
+                    if need > room:
+                        break
+                    req_ids.append(x); room -= need
+                keep = [x for x in req_ids if user_exists(x)]
+                want_bm = b"/".join(keep)
                 exp = bytearray(256)
                 exp[0:13] = n13; exp[13:62] = title; exp[62:101] = pad(want_bm, 39)
                 exp[104:108] = struct.pack("<I", a); exp[108] = r.chess; exp[124:128] = struct.pack("<I", lvl); exp[132:136] = struct.pack("<I", r.cls & 0xFFFFFFFF)
                 exp = bytes(exp)
                 frec = o.file[b - 1] if b - 1 < len(o.file) else b""
                 crec = o.cache[b - 1] if b - 1 < len(o.cache) else b""
-                bm_special = any(b"/" in cstr(pad(x, 13)) for x in r.bms) or len(want_bm) > 39
+                bm_special = any(b"/" in cstr(pad(x, 13)) for x in r.bms)     # an id containing the separator is re-split by SanitizeBMs: left to the correspondence
                 if frec != exp and not (bm_special and frec[:62] == exp[:62] and frec[101:] == exp[101:]):
                     what = [nm for nm, (x, y) in {"name": (0, 13), "title": (13, 62), "moderators": (62, 101), "attributes": (104, 108), "level": (124, 128), "parent": (132, 136)}.items() if frec[x:y] != exp[x:y]]
                     viol("accept:file-record:%s" % ("+".join(what) or "other-bytes"), "request %d: slot %d of .BRD does not carry the requested board (%s differ: name %r)" % (nreq, b, ", ".join(what) or "other bytes", cstr(frec[:13])), cs, nreq, frec.hex())
@@ -489,7 +498,7 @@ def main():
                 for pi, pn in enumerate(POOL):
                     if fold(pn) == fold(n13) and o.getbid[pi] != b:
                         viol("accept:name-index", "request %d: GetBid(%r) = %d after creating %r in slot %d" % (nreq, cstr(pn), o.getbid[pi], raw, b), cs, nreq, o.getbid[pi])
-                want_bmc = [by_fold[fold(pad(x, 13))] for x in r.bms if user_exists(x) and b"/" not in cstr(pad(x, 13))][:4]
+                want_bmc = [by_fold[fold(pad(x, 13))] for x in keep][:4]
                 want_bmc = tuple(want_bmc + [-1] * (4 - len(want_bmc)))
                 if b - 1 < len(o.bmcache) and o.bmcache[b - 1] != want_bmc and not bm_special:
                     viol("accept:moderator-cache", "request %d: moderator cache of slot %d is %r, expected %r" % (nreq, b, o.bmcache[b - 1], want_bmc), cs, nreq, list(o.bmcache[b - 1]))
